@@ -45,9 +45,11 @@ Inductive Case :=
 | AuthzValid (g : Grant) (ok panicked : bool)
 (* Accept sequences: per request (accepted?, stored grant afterwards as (port, channel, limit) list or None) *)
 | AuthzRun (g : Grant) (rs : list Req) (obs : list (bool * option (list (bytes * bytes * Coins))))
-(* MsgGrant + MsgExec transactions: requests with the granter's spendable balance before, observations with the
-   amount that left the granter's account *)
-| AuthzExec (g : Grant) (rs : list (Req * Z)) (obs : list (bool * option (list (bytes * bytes * Coins)) * Z)).
+(* MsgGrant + MsgExec transactions: requests with the granter's spendable balance before and a flag "the stored
+   authorization accepts the message but the transaction failed" (the transfer itself failed, e.g. insufficient
+   funds: the whole transaction, including the grant update, is reverted); observations with the amount that left
+   the granter's account *)
+| AuthzExec (g : Grant) (rs : list (Req * Z * bool)) (obs : list (bool * option (list (bytes * bytes * Coins)) * Z)).
 
 Definition trip_eqb (a b : Trip) : bool :=
   bool_eqb (t_send1 a) (t_send1 b) && bool_eqb (t_recv1 a) (t_recv1 b) && bytes_eqb (t_voucher a) (t_voucher b) &&
@@ -74,14 +76,17 @@ Fixpoint run_check (st : State) (rs : list Req) (obs : list (bool * option (list
   | _, _ => false
   end.
 
-Fixpoint exec_check (st : State) (rs : list (Req * Z)) (obs : list (bool * option (list (bytes * bytes * Coins)) * Z)) : bool :=
+Fixpoint exec_check (st : State) (rs : list (Req * Z * bool)) (obs : list (bool * option (list (bytes * bytes * Coins)) * Z)) : bool :=
   match rs, obs with
   | [], [] => true
-  | (r, spendable) :: rs', (ok, s, moved) :: obs' =>
+  | (r, spendable, exec_failed) :: rs', (ok, s, moved) :: obs' =>
       let '(st1, ok1) := step st r in
-      bool_eqb ok1 ok && state_obs_eqb st1 s &&
-      (moved =? (if ok1 then executed_amount r spendable else 0))%Z &&
-      exec_check st1 rs' obs'
+      if exec_failed
+      then (* Accept said yes (the model must agree), the message failed afterwards: everything is reverted *)
+           ok1 && negb ok && state_obs_eqb st s && (moved =? 0)%Z && exec_check st rs' obs'
+      else bool_eqb ok1 ok && state_obs_eqb st1 s &&
+           (moved =? (if ok1 then executed_amount r spendable else 0))%Z &&
+           exec_check st1 rs' obs'
   | _, _ => false
   end.
 
